@@ -110,8 +110,8 @@ def generate(workdir='/verif/work'):
             body = em.pe(p['body'])
         except grammar.Unsupported as ex:
             tr.opaque[n] = 'emit: ' + str(ex); body = '.fail'
-        lines[n] = '  { packrat := %s, recursive := %s, body := %s }' % (
-            'true' if p['packrat'] else 'false', 'true' if p['recursive'] else 'false', body)
+        lines[n] = '  { packrat := %s, %srecursive := %s, body := %s }' % (
+            'true' if p['packrat'] else 'false', 'packrat2 := true, ' if p.get('packrat2') else '', 'true' if p['recursive'] else 'false', body)
     per = (len(names) + NSHARDS - 1) // NSHARDS
     changed = []
     for sh in range(NSHARDS):
@@ -321,7 +321,7 @@ def generate(workdir='/verif/work'):
     cn, ctotal = corpus.write(workdir)
     summary = {
         'productions': len(names), 'opaque': tr.opaque, 'combinators': sorted(tr.comb_templates),
-        'packrat': sum(1 for n in names if prods[n]['packrat']), 'recursive': sum(1 for n in names if prods[n]['recursive']),
+        'packrat': sum(1 for n in names if prods[n]['packrat']), 'packrat_twice': sum(1 for n in names if prods[n].get('packrat2')), 'recursive': sum(1 for n in names if prods[n]['recursive']),
         'kinds': len(tr.kinds), 'keyword_tables': {v: len(t) for v, t in zip(vers, tbls)}, 'kw_default': dflt,
         'kw_problems': kw_problems, 'entry_problems': eproblems, 'statics': [list(x) for x in sitems], 'clears': sclears, 'panic_growth': panic_growth, 'panic_sites': sum(sum(v.values()) for v in pcur.values()), 'conv_rows': len(rows), 'conv_opaque': conv_opaque,
         'productive_marks': len(mlist), 'unmarked': sorted(n for n in names if n not in marks),
@@ -333,6 +333,7 @@ def generate(workdir='/verif/work'):
     with open(os.path.join(workdir, 'keywords.txt'), 'w') as kf:
         for v, t in zip(vers, tbls): kf.write(v + ' ' + ' '.join(t) + '\n')
     open(os.path.join(workdir, 'kinds.txt'), 'w').write('\n'.join(summary['kind_names']) + '\n')
+    open(os.path.join(workdir, 'names.txt'), 'w').write('\n'.join(names) + '\n')
     json.dump(summary, open(os.path.join(workdir, 'summary.json'), 'w'))
     return summary
 
